@@ -31,7 +31,7 @@ ScopeFiles == { "include/core/bigint.hpp", "include/core/fp.hpp", "include/core/
                 "include/bls12_381/fq.hpp", "include/bls12_381/fr.hpp", "include/bls12_381/fq2.hpp",
                 "include/bls12_381/fq6.hpp", "include/bls12_381/fq12.hpp", "include/bls12_381/curve.hpp",
                 "include/bls12_381/wnaf.hpp", "include/bls12_381/decomposition.hpp", "include/bls12_381/pairing.hpp",
-                "include/bls12_381/bls12_381.h" }
+                "include/bls12_381/bls12_381.h", "include/wkdibe/wkdibe.h", "include/lqibe/lqibe.h" }
 InScope(o) == o.file \in ScopeFiles
 
 \* ---- interface semantics ---------------------------------------------------------------------------
@@ -115,7 +115,10 @@ Bind == {
                  <<"c", "", "embedded_pairing_bls12_381_g" \o g \o "affine_negate", 0, {"pt.aneg:c:" \o g}>> } : g \in {"1", "2"} }
   \cup { <<"c", "", "embedded_pairing_bls12_381_gt_add", 0, {"gt.op:add"}>>, <<"c", "", "embedded_pairing_bls12_381_gt_negate", 0, {"gt.op:negate"}>>,
          <<"c", "", "embedded_pairing_bls12_381_gt_double", 0, {"gt.op:double"}>>, <<"c", "", "embedded_pairing_bls12_381_gt_multiply", 0, {"gt.exp:c"}>>,
-         <<"c", "", "embedded_pairing_bls12_381_gt_multiply_random", 0, {"gt.random:c"}>> }
+         <<"c", "", "embedded_pairing_bls12_381_gt_multiply_random", 0, {"gt.random:c"}>>,
+         \* the scheme's C functions whose signatures let the output key be the input key
+         <<"c", "", "embedded_pairing_wkdibe_qualifykey", 0, {"wk:qualify"}>>, <<"c", "", "embedded_pairing_wkdibe_nondelegable_qualifykey", 0, {"wk:ndqualify"}>>,
+         <<"c", "", "embedded_pairing_wkdibe_adjust_nondelegable", 0, {"wk:adjustnd"}>>, <<"c", "", "embedded_pairing_wkdibe_resamplekey", 0, {"wk:resample"}>> }
 
 KeysOf(o) == UNION { b[5] : b \in { bb \in Bind : bb[1] = o.lang /\ bb[2] = o.struct /\ bb[3] = o.name /\ (bb[4] = 0 \/ bb[4] = o.ovl) } }
 
